@@ -50,9 +50,44 @@ def walk_generic_lists(items, path, out, outer=()):
             walk_generic_lists(it.get("items", []), path + "/" + nm, out, ())
 
 
+_GEN_NAMES = None
+
+
+def generated_type_names():
+    """Type-parameter and associated-type names the generated code itself introduces, read from the expansion of a
+    generic reference contract / interface (multitest helpers included); the reserved prefix `Sv` is left out."""
+    global _GEN_NAMES
+    if _GEN_NAMES is None:
+        recs = [model.e1_contract_record("g:ct", named_contract("T"), want="items,mt"),
+                model.e1_entry_points_record("g:ep", named_contract("T"), want="items,mt"),
+                model.e1_interface_record("g:if", named_interface("T"), want="items,mt")]
+        names = set()
+
+        def assoc(items):
+            for it in items:
+                if it.get("k") in ("impl", "trait"):
+                    names.update(x["name"] for x in it.get("items", []) if x.get("k") == "type")
+                if it.get("k") in ("mod", "impl", "trait"):
+                    assoc(it.get("items", []))
+        for o in core.e1_run(recs, "c19-gen"):
+            lists = []
+            walk_generic_lists(o.get("items", []), "", lists)
+            for path, ns, outer in lists:
+                names.update(ns)
+            assoc(o.get("items", []))
+        _GEN_NAMES = sorted(n for n in names if n[0].isupper() and not n.startswith("Sv") and n != "T")
+        if len(_GEN_NAMES) < 5:
+            raise core.MachineryError("implausibly few generated type names: %s" % _GEN_NAMES)
+    return _GEN_NAMES
+
+
+def all_names():
+    return NAMES + [n for n in generated_type_names() if n not in NAMES]
+
+
 def run_e1_names(res, tier):
     recs, meta = [], {}
-    for n in NAMES:
+    for n in all_names():
         c = named_contract(n)
         r = model.e1_contract_record("ct:" + n, c, want="items,mt")
         recs.append(r)
@@ -86,7 +121,8 @@ def run_e1_names(res, tier):
 
 
 def compile_names(res, tier):
-    names = NAMES if tier == "thorough" else ["A", "C", "D", "E", "F", "Q", "T", "Msg", "Query", "Param", "Error", "Contract", "Api"]
+    names = all_names() if tier == "thorough" else ["A", "C", "D", "E", "F", "Q", "T", "Msg", "Query", "Param", "Error", "Contract", "Api"] + [
+        n for n in generated_type_names() if n not in NAMES]
     cp = e2.Corpus("names-" + tier)
     glue = "pub struct Subj;\nimpl vsupport::Subject for Subj { fn run(&self, c: &vsupport::Case) -> vsupport::Obs { json!({}) } }\n"
     for n in names:
